@@ -68,7 +68,7 @@ theorem signResponse_mac {ε : Type} (hm : Tsig.Algorithm → Tsig.Octets → Ts
 
 theorem macLenOK_server (hh : HmacLenOK) : MacLenOK macFn := by
   intro ts msg
-  unfold macFn
+  unfold macFn macFnWith
   cases hmode : ts.mode with
   | request a k => simp
   | subsequent a pm k => simp
